@@ -7,6 +7,9 @@
 //!
 //! Ops (one line each; nothing polls the Swarm except `poll`):
 //!   connect <p>                 Swarm::dial(peer p) + the transport dial resolves at once
+//!   dial <p>                    Swarm::dial(peer p): the ConnectionId is allocated, the dial stays open
+//!   resolve <c> <p>             the open dial / inbound upgrade of connection c completes (inbound: as peer p)
+//!   incoming                    the transport reports an incoming connection (id allocated when polled)
 //!   close <c>                   Swarm::close_connection
 //!   disconnect <p>              Swarm::disconnect_peer_id
 //!   rclose <c>                  the remote closes (muxer starts failing)
@@ -144,6 +147,10 @@ impl NetworkBehaviour for NB {
     fn on_connection_handler_event(&mut self, _peer: PeerId, _id: ConnectionId, _ev: THandlerOutEvent<Self>) {}
     fn poll(&mut self, cx: &mut Context<'_>) -> Poll<ToSwarm<u32, THandlerInEvent<Self>>> {
         if let Some(e) = self.queue.lock().unwrap().pop_front() {
+            if let ToSwarm::NotifyHandler { event, .. } = &e {
+                // the moment of emission, as the Swarm sees it
+                self.world.lock().unwrap().push(format!("emit,{}", event.n));
+            }
             return Poll::Ready(e);
         }
         self.waker = Some(cx.waker().clone());
@@ -166,6 +173,9 @@ pub enum BCmd {
 #[derive(Clone, Debug)]
 pub enum Op {
     Connect(usize),
+    Dial(usize),
+    Resolve(usize, usize),
+    Incoming,
     Close(usize),
     Disconnect(usize),
     RClose(usize),
@@ -177,6 +187,9 @@ fn parse_op(t: &[String]) -> Op {
     let n = |s: &str| s.parse::<usize>().unwrap();
     match t[0].as_str() {
         "connect" => Op::Connect(n(&t[1])),
+        "dial" => Op::Dial(n(&t[1])),
+        "resolve" => Op::Resolve(n(&t[1]), n(&t[2])),
+        "incoming" => Op::Incoming,
         "close" => Op::Close(n(&t[1])),
         "disconnect" => Op::Disconnect(n(&t[1])),
         "rclose" => Op::RClose(n(&t[1])),
@@ -217,6 +230,13 @@ pub struct Runner {
     next_ev: u32,
     fate: HashMap<u32, Fate>,
     n_dials: usize,
+    listener: libp2p_core::transport::ListenerId,
+    /// open outbound dials: connection name -> (index of the transport dial, expected peer)
+    open_out: HashMap<usize, (usize, usize)>,
+    /// incoming connections pushed into the transport and not yet seen as `IncomingConnection`
+    inc_fifo: VecDeque<usize>,
+    /// open inbound upgrades: connection name -> index of the incoming connection
+    open_in: HashMap<usize, usize>,
     /// connections reported established and not yet reported closed
     est: std::collections::HashSet<usize>,
 }
@@ -228,7 +248,7 @@ impl Runner {
         let peers: Vec<PeerId> = (0..N_PEERS as u8).map(hcore::peer).collect();
         let mut queue = None;
         let cfg = libp2p_swarm::Config::without_executor().with_notify_handler_buffer_size(NonZeroUsize::new(buf).unwrap());
-        let sim = Sim::new(
+        let mut sim = Sim::new(
             |w| {
                 let b = NB { world: w, queue: Default::default(), waker: None };
                 queue = Some(b.queue.clone());
@@ -243,7 +263,12 @@ impl Runner {
                 w.peer(p);
             }
         }
-        Runner {
+        let listener = sim.swarm.listen_on("/ip4/10.9.9.9/tcp/9".parse().unwrap()).unwrap();
+        let mut r = Runner {
+            listener,
+            open_out: HashMap::new(),
+            inc_fifo: VecDeque::new(),
+            open_in: HashMap::new(),
             sim,
             peers,
             queue: queue.unwrap(),
@@ -253,7 +278,12 @@ impl Runner {
             fate: HashMap::new(),
             n_dials: 0,
             est: Default::default(),
+        };
+        for _ in 0..3 {
+            r.poll1();
         }
+        r.sim.take_log();
+        r
     }
 
     fn real_conn(&self, c: usize) -> ConnectionId {
@@ -297,6 +327,13 @@ impl Runner {
                         format!("closed:{c}")
                     }
                     SwarmEvent::OutgoingConnectionError { connection_id, .. } => format!("fail:{}", w.conn(connection_id)),
+                    SwarmEvent::IncomingConnection { connection_id, .. } => {
+                        let c = w.conn(connection_id);
+                        if let Some(k) = self.inc_fifo.pop_front() {
+                            self.open_in.insert(c, k);
+                        }
+                        format!("inc:{c}")
+                    }
                     _ => "other".into(),
                 }
             }
@@ -305,7 +342,8 @@ impl Runner {
 
     /// digest the raw log of one poll: deliveries (grouped per connection, order kept), drops,
     /// and the fate of events dropped inside a connection's command queue
-    fn digest(&mut self, log: &[String]) -> (String, String) {
+    fn digest(&mut self, log: &[String]) -> (String, String, String) {
+        let mut em: Vec<u32> = vec![];
         let mut deliv: Vec<(usize, u32)> = vec![];
         let mut drops: Vec<u32> = vec![];
         let mut cur: Option<usize> = None;
@@ -319,6 +357,7 @@ impl Runner {
                     self.fate.insert(n, Fate::Conn(c));
                     cur = None;
                 }
+                "emit" => em.push(f[1].parse().unwrap()),
                 "hpc" | "hdrop" => cur = Some(f[1].parse().unwrap()),
                 "drop" => {
                     let n: u32 = f[1].parse().unwrap();
@@ -333,31 +372,78 @@ impl Runner {
         deliv.sort_by_key(|(c, _)| *c); // stable: per-connection order is kept
         drops.sort();
         let d: Vec<String> = deliv.iter().map(|(c, n)| format!("{c}:{n}")).collect();
-        (hcore::list(&d), hcore::list(&drops))
+        (hcore::list(&d), hcore::list(&drops), hcore::list(&em))
+    }
+
+    /// `Swarm::dial` to peer p; returns (connection name, transport dial index if the dial was accepted)
+    fn dial(&mut self, p: usize) -> (usize, Option<usize>) {
+        let addr: Multiaddr = format!("/ip4/10.0.0.{}/tcp/{}", p + 1, 1000 + self.n_dials).parse().unwrap();
+        let opts = DialOpts::peer_id(self.peers[p]).condition(PeerCondition::Always).addresses(vec![addr]).build();
+        let id = self.sim.world.lock().unwrap().conn(opts.connection_id());
+        let r = self.sim.swarm.dial(opts);
+        let k = self.n_dials;
+        let n_now = self.sim.tstate.lock().unwrap().dials.len();
+        self.n_dials = n_now;
+        self.peer_of_conn.insert(id, p);
+        (id, (r.is_ok() && n_now == k + 1).then_some(k))
     }
 
     /// run one op; returns the op text (emit ops carry `?n` placeholders for the Any oracle) and impl text
     fn exec(&mut self, op: &Op) -> (String, String) {
         match op {
             Op::Connect(p) => {
-                let addr: Multiaddr = format!("/ip4/10.0.0.{}/tcp/{}", p + 1, 1000 + self.n_dials).parse().unwrap();
-                let opts = DialOpts::peer_id(self.peers[*p]).condition(PeerCondition::Always).addresses(vec![addr]).build();
-                let id = self.sim.world.lock().unwrap().conn(opts.connection_id());
-                let r = self.sim.swarm.dial(opts);
-                let k = self.n_dials;
-                let n_now = self.sim.tstate.lock().unwrap().dials.len();
-                let res = if r.is_ok() && n_now == k + 1 {
-                    self.n_dials += 1;
-                    if let Some(m) = self.sim.resolve_dial(k, Ok(self.peers[*p])) {
-                        self.mux_of_conn.insert(id, m);
+                let (id, k) = self.dial(*p);
+                let res = match k {
+                    Some(k) => {
+                        if let Some(m) = self.sim.resolve_dial(k, Ok(self.peers[*p])) {
+                            self.mux_of_conn.insert(id, m);
+                        }
+                        format!("id={id}")
                     }
-                    self.peer_of_conn.insert(id, *p);
-                    format!("id={id}")
-                } else {
-                    self.n_dials = n_now;
-                    format!("id={id} err")
+                    None => format!("id={id} err"),
                 };
                 (format!("connect {p}"), res)
+            }
+            Op::Dial(p) => {
+                let (id, k) = self.dial(*p);
+                let res = match k {
+                    // at most one open outbound dial at a time (see the model's `openDial`)
+                    Some(k) if !self.open_out.is_empty() => {
+                        if let Some(m) = self.sim.resolve_dial(k, Ok(self.peers[*p])) {
+                            self.mux_of_conn.insert(id, m);
+                        }
+                        format!("id={id}")
+                    }
+                    Some(k) => {
+                        self.open_out.insert(id, (k, *p));
+                        format!("id={id}")
+                    }
+                    None => format!("id={id} err"),
+                };
+                (format!("dial {p}"), res)
+            }
+            Op::Resolve(c, p) => {
+                if let Some((k, expected)) = self.open_out.remove(c) {
+                    if let Some(m) = self.sim.resolve_dial(k, Ok(self.peers[expected])) {
+                        self.mux_of_conn.insert(*c, m);
+                    }
+                } else if let Some(k) = self.open_in.remove(c) {
+                    if let Some(m) = self.sim.resolve_incoming(k, Ok(self.peers[*p % N_PEERS])) {
+                        self.mux_of_conn.insert(*c, m);
+                    }
+                    self.peer_of_conn.insert(*c, *p % N_PEERS);
+                }
+                (format!("resolve {c} {p}"), "res=-".into())
+            }
+            Op::Incoming => {
+                let l = self.listener;
+                let k = self.sim.push_incoming(
+                    l,
+                    "/ip4/10.9.9.9/tcp/9".parse().unwrap(),
+                    format!("/ip4/10.7.7.7/tcp/{}", 2000 + self.inc_fifo.len() + self.open_in.len()).parse().unwrap(),
+                );
+                self.inc_fifo.push_back(k);
+                ("incoming".into(), "res=-".into())
             }
             Op::Close(c) => {
                 let id = self.real_conn(*c);
@@ -407,13 +493,13 @@ impl Runner {
             Op::Poll => {
                 let ret = self.poll1();
                 let log = self.sim.take_log();
-                let (deliv, drops) = self.digest(&log);
+                let (deliv, drops, em) = self.digest(&log);
                 let ne = self.sim.swarm.network_info().connection_counters().num_established();
                 let pick = match ret.split(':').collect::<Vec<_>>().as_slice() {
                     ["est", c, _] | ["closed", c] | ["fail", c] => c.to_string(),
                     _ => "x".to_string(),
                 };
-                (format!("poll pick={pick}"), format!("ret={ret} deliv={deliv} drops={drops} ne={ne}"))
+                (format!("poll pick={pick}"), format!("ret={ret} deliv={deliv} drops={drops} ne={ne} em={em}"))
             }
         }
     }
@@ -427,7 +513,7 @@ impl Runner {
             self.sim.take_log();
             let ret = self.poll1();
             let log = self.sim.take_log();
-            let (d, x) = self.digest(&log);
+            let (d, x, _) = self.digest(&log);
             if ret == "pending" && d == "-" && x == "-" {
                 idle += 1;
             } else {
@@ -484,6 +570,8 @@ struct Gen {
     hot_conn: usize,
     hot_peer: usize,
     poll_heavy: bool,
+    prefix: VecDeque<Op>,
+    scripted: bool,
 }
 
 impl Gen {
@@ -528,25 +616,77 @@ impl Gen {
             })
             .collect()
     }
-    fn next(&mut self) -> Option<Op> {
+    /// a connection whose dial / upgrade is still open (sorted: HashMap order must not leak)
+    fn open_conn(&mut self, r: &Runner) -> usize {
+        let mut open: Vec<usize> = r.open_out.keys().chain(r.open_in.keys()).cloned().collect();
+        open.sort();
+        if open.is_empty() || self.rng.chance(1, 8) {
+            self.conn()
+        } else {
+            *self.rng.pick(&open)
+        }
+    }
+    fn next(&mut self, r: &Runner) -> Option<Op> {
+        if let Some(op) = self.prefix.pop_front() {
+            return Some(op);
+        }
         if self.done >= self.len {
             return None;
         }
         self.done += 1;
-        let early = self.done <= 3;
+        self.conns = r.sim.world.lock().unwrap().conn_names.len();
+        let early = self.done <= 3 && !self.scripted;
         let op = match self.rng.below(100) {
-            x if x < 12 || (early && x < 70) => {
-                self.conns += 1;
-                Op::Connect(self.peer())
+            x if x < 10 || (early && x < 60) => Op::Connect(self.peer()),
+            x if x < 14 || (early && x < 70) => Op::Dial(self.peer()),
+            x if x < 20 => {
+                let c = self.open_conn(r);
+                Op::Resolve(c, self.peer())
             }
-            x if x < 40 => Op::Emit(self.burst()),
-            x if x < 46 => Op::Close(self.conn()),
-            x if x < 49 => Op::Disconnect(self.peer()),
-            x if x < 54 => Op::RClose(self.conn()),
-            x if x < 60 && !self.poll_heavy => Op::Emit(self.burst()),
+            x if x < 23 => Op::Incoming,
+            x if x < 44 => Op::Emit(self.burst()),
+            x if x < 49 => Op::Close(self.conn()),
+            x if x < 52 => Op::Disconnect(self.peer()),
+            x if x < 56 => Op::RClose(self.conn()),
+            x if x < 61 && !self.poll_heavy => Op::Emit(self.burst()),
             _ => Op::Poll,
         };
         Some(op)
+    }
+    /// directed prefix: an `Any` event parked on full queues while a connection with a LOWER id
+    /// (dial built / inbound accepted earlier, completed later) gets established
+    fn low_id_prefix(&mut self, buf: usize) -> VecDeque<Op> {
+        let p = self.hot_peer;
+        let mut v = VecDeque::new();
+        if self.rng.bool() {
+            v.push_back(Op::Incoming);
+            v.push_back(Op::Poll);
+        } else {
+            v.push_back(Op::Dial(p));
+        }
+        let m = 1 + self.rng.usize(2);
+        for _ in 0..m {
+            v.push_back(Op::Connect(p));
+        }
+        for _ in 0..m + 2 {
+            v.push_back(Op::Poll);
+        }
+        v.push_back(Op::Resolve(0, p));
+        v.push_back(Op::Poll);
+        let mut burst = vec![];
+        for c in 1..=m {
+            for _ in 0..buf {
+                burst.push(BCmd::One(c));
+            }
+        }
+        for _ in 0..1 + self.rng.usize(3) {
+            burst.push(BCmd::Any(p));
+        }
+        v.push_back(Op::Emit(burst));
+        for _ in 0..2 + self.rng.usize(3) {
+            v.push_back(Op::Poll);
+        }
+        v
     }
 }
 
@@ -568,8 +708,13 @@ pub fn run(args: &Args, out: &mut Out) {
         let hot_conn = rng.usize(4);
         let hot_peer = 1 + rng.usize(2);
         let poll_heavy = rng.bool();
-        let mut g = Gen { rng, len, done: 0, conns: 0, hot_conn, hot_peer, poll_heavy };
-        out.case(i, &format!("script nt=1 buf={buf}"));
-        run_case(buf, &mut |_| g.next(), out);
+        let scripted = rng.chance(1, 6);
+        let mut g = Gen { rng, len, done: 0, conns: 0, hot_conn, hot_peer, poll_heavy, prefix: VecDeque::new(), scripted };
+        if scripted {
+            g.prefix = g.low_id_prefix(buf);
+            g.len = g.rng.usize(16);
+        }
+        out.case(i, &format!("{} nt=1 buf={buf}", if scripted { "lowid" } else { "script" }));
+        run_case(buf, &mut |r| g.next(r), out);
     }
 }
